@@ -64,9 +64,16 @@ let mediatype_line h =
   let ((mt, hasmap), params) = DispatchModel.mediatype (hexd h) in
   Printf.sprintf "mt=%s hasmap=%s params=%s" (hexe mt) (if hasmap then "1" else "0") (canon_params params)
 
+(* ---- DataUri ---- *)
+let b2s b = if b then "1" else "0"
+
 let register (reg : string -> (string list -> string) -> unit) =
   reg "json_events" (function [k; evs] -> hexe (JsonModel.json_minify_events (k = "1") (parse_events evs))
                             | [k] -> hexe (JsonModel.json_minify_events (k = "1") []) | _ -> "BADARGS");
   reg "dispatch" (function [h; m; t] -> dispatch h m t | _ -> "BADARGS");
   reg "mediatype" (function [m] -> mediatype_line m | [] -> mediatype_line "-" | _ -> "BADARGS");
+  reg "needs_escape" (function [c] -> b2s (DataUriModel.needs_escape (Stdlib.List.hd (bytes_of_hex c))) | _ -> "BADARGS");
+  reg "b64" (function [d] -> hexe (DataUriModel.b64_encode (hexd d)) | _ -> "BADARGS");
+  reg "datauri" (function [o; m; d] -> hexe (DataUriModel.datauri_encode (hexd o) (hexd m) (hexd d)) | _ -> "BADARGS");
+  reg "mediatype_min" (function [m] -> hexe (DataUriModel.mediatype_min (hexd m)) | _ -> "BADARGS");
   reg "json_tree" (function [t] -> show_events (JsonSpec.events_of JsonModel.SValue (parse_tree t)) | _ -> "BADARGS")
